@@ -7,12 +7,16 @@ Decided (necessary conditions of the sum identity; the numeric content is not de
   C01.L2  no dead residual: a complement ledger that is decremented in a loop is read again
           after that loop (its residual must flow into the remainder or a cell).
   C01.L3  remainder provenance: DistributionResult.remaining_power is the complement ledger
-          (request - mirror), threaded through the greedy top-up and the per-inverter split.
+          (request - mirror), threaded through the greedy top-up and the per-inverter split; the
+          zero answer (set-points 0, remainder 0) is given only to a request that is zero to float
+          tolerance (the tolerance of the test is resolved through constants and the helper's default).
   C01.S   sign mirror: the supply path negates the request in and every cell and the remainder
           out; the supply branch of _inclusion_exclusion_bounds is the dual of the consume branch.
   C01.B   reported == commanded: the map sent to the API is the distribution itself, the
-          reported distributed power is request - remainder, and a call booked as failed always
-          has its set-point booked as failed power (and vice versa).
+          reported distributed power is request - remainder, a call booked as failed always
+          has its set-point booked as failed power (and vice versa), and the wait over the set_power
+          tasks ends only when all are done or the request timeout expires (ALL_COMPLETED), so a
+          set-point in flight is never written off because another call failed or finished first.
 """
 from __future__ import annotations
 
@@ -549,6 +553,145 @@ def _is_dr(e: ast.AST | None) -> bool:
     return isinstance(e, ast.Call) and u(e.func).split(".")[-1] == "DistributionResult"
 
 
+FLOAT_TOL_W = 1e-6
+"""Largest magnitude (in watts) that still counts as "zero to float tolerance" for a request: the helper's
+own default is 1e-9; anything a caller can tell from zero (the API takes fractional watts) is a request."""
+
+
+def _const_number(prog: Program, fn: FuncInfo, e: ast.AST, depth: int = 0) -> float | None:
+    """Numeric value of an expression made of literals and named constants: module-level `NAME = <number>`
+    of the function's module, constants imported from another module of the package, class attributes
+    (`self.X` / `cls.X` / `<Class>.X`).  None: not a compile-time number."""
+    from ..engine.resolver import PKG, dotted
+
+    c = TermEval().ev(e).const_value()
+    if c is not None:
+        return float(c)
+    if depth > 5:
+        return None
+    if isinstance(e, ast.UnaryOp) and isinstance(e.op, (ast.USub, ast.UAdd)):
+        v = _const_number(prog, fn, e.operand, depth + 1)
+        return None if v is None else (-v if isinstance(e.op, ast.USub) else v)
+    if isinstance(e, ast.Call) and u(e.func) in ("abs", "float") and len(e.args) == 1 and not e.keywords:
+        v = _const_number(prog, fn, e.args[0], depth + 1)
+        return None if v is None else (abs(v) if u(e.func) == "abs" else v)
+    if isinstance(e, ast.Call) and u(e.func) in ("min", "max") and e.args and not e.keywords:
+        vs = [_const_number(prog, fn, a, depth + 1) for a in e.args]
+        return None if any(v is None for v in vs) else (min if u(e.func) == "min" else max)(vs)  # type: ignore[type-var]
+    name = dotted(e)
+    if name is None:
+        return None
+    head, _, tail = name.partition(".")
+    mod = fn.module
+    if not tail:
+        if head in mod.assigns:
+            return _const_number(prog, fn, mod.assigns[head], depth + 1)
+        target = mod.imports.get(head, "")
+        if target.startswith(PKG + "."):
+            modname, _, attr = target[len(PKG) + 1:].rpartition(".")
+            other = prog.modules.get(modname)
+            if other is not None and attr in other.assigns:
+                return _const_number(prog, FuncInfo(fn.name, other, fn.node), other.assigns[attr], depth + 1)
+        return None
+    if "." in tail:
+        return None
+    cls = fn.cls if head in ("self", "cls") else mod.classes.get(head)
+    if cls is None:
+        return None
+    for k in prog.mro(cls):
+        if tail in k.class_assigns:
+            return _const_number(prog, FuncInfo(fn.name, k.module, fn.node, k), k.class_assigns[tail], depth + 1)
+    return None
+
+
+def _zero_helper(prog: Program, fn: FuncInfo, call: ast.Call) -> tuple[list[str], ast.AST, FuncInfo] | None:
+    """`call` is a call of the package's close-to-zero predicate: (its parameters [value, tolerance], the
+    tolerance's default).  The predicate is followed through the import and must be what its name says:
+    `math.isclose(value, 0, abs_tol=<tolerance parameter>)` with no relative tolerance that could reach 0."""
+    from ..engine.resolver import dotted
+    from ..engine.sympath import sym_paths
+
+    if u(call.func).split(".")[-1] != "is_close_to_zero":
+        return None
+    target = prog.resolve_name(fn.module, dotted(call.func))
+    if not isinstance(target, FuncInfo):
+        raise AnalysisError(f"{fn.qual}: `{u(call.func)}` does not resolve to a function of the package")
+    a = target.node.args
+    params = [x.arg for x in a.posonlyargs + a.args]
+    if len(params) != 2 or a.kwonlyargs or a.vararg or a.kwarg or len(a.defaults) != 1:
+        raise AnalysisError(f"{target.qual}: expected (value, tolerance=<default>) parameters")
+    te = TermEval()
+    paths = [p for p in sym_paths(target.node) if p.exit == "return"]
+    r0 = paths[0].ret if len(paths) == 1 and not paths[0].conds else None
+    if isinstance(r0, ast.Compare) and len(r0.ops) == 1:
+        # the same predicate spelled `abs(value) <= tolerance` (either orientation)
+        left, right, kind = r0.left, r0.comparators[0], type(r0.ops[0])
+        if kind in (ast.Gt, ast.GtE):
+            left, right, kind = right, left, {ast.Gt: ast.Lt, ast.GtE: ast.LtE}[kind]
+        if kind in (ast.Lt, ast.LtE) and isinstance(left, ast.Call) and u(left.func) == "abs" and len(left.args) == 1 \
+                and te.ev(left.args[0]) == Poly.atom(params[0]) and te.ev(right) == Poly.atom(params[1]):
+            return params, a.defaults[0], target
+    ok = isinstance(r0, ast.Call) and (d0 := dotted(r0.func)) is not None \
+        and prog.external_name(target.module, d0) == "math.isclose"
+    if ok:
+        r = paths[0].ret
+        kws = {k.arg: k.value for k in r.keywords}  # type: ignore[union-attr]
+        pos = dict(zip(("a", "b"), r.args))  # type: ignore[union-attr]
+        ops = [pos.get("a", kws.get("a")), pos.get("b", kws.get("b"))]
+        rel = kws.get("rel_tol")
+        ok = all(x is not None for x in ops) \
+            and sorted(repr(te.ev(x)) for x in ops) == sorted((params[0], "0")) \
+            and "abs_tol" in kws and te.ev(kws["abs_tol"]) == Poly.atom(params[1]) \
+            and (rel is None or ((c := te.ev(rel).const_value()) is not None and 0 <= c < 1))
+    if not ok:
+        raise AnalysisError(f"{target.qual}: not `math.isclose(value, 0, abs_tol=<tolerance>)`: what the zero test "
+                            "of a request admits cannot be read")
+    return params, a.defaults[0], target
+
+
+def _zero_test(prog: Program, fn: FuncInfo, atom: ast.AST, outcome: bool, power: str) -> tuple[float | None, str] | None:
+    """Does the branch condition `atom` (taken with `outcome`) say "the request `power` is zero"?  Then
+    (largest |power| it lets through -- 0.0 for an exact comparison, None if it is not a constant --, text)."""
+    from ._c15_util import bound_args
+
+    te = TermEval()
+    if isinstance(atom, ast.Call):
+        zh = _zero_helper(prog, fn, atom)
+        if zh is None or not outcome:
+            return None
+        params, default, helper = zh
+        try:
+            a = bound_args(atom, params, f"{fn.qual}: {u(atom.func)}(...)")
+        except AnalysisError:
+            return None
+        if params[0] not in a or te.ev(a[params[0]]) != Poly.atom(power):
+            return None
+        if params[1] in a:
+            return _const_number(prog, fn, a[params[1]]), u(atom)
+        # the helper's default, read in the helper's own module
+        return _const_number(prog, helper, default), f"{u(atom)} [default {params[1]}={u(default)}]"
+    if isinstance(atom, ast.Compare) and len(atom.ops) == 1:
+        op, left, right = atom.ops[0], atom.left, atom.comparators[0]
+        if isinstance(op, (ast.Eq, ast.NotEq)):
+            if {repr(te.ev(left)), repr(te.ev(right))} == {power, "0"} and outcome == isinstance(op, ast.Eq):
+                return 0.0, u(atom)
+            return None
+        # abs(power) < eps / eps > abs(power), or the negation of abs(power) > eps
+        flip = {ast.Lt: ast.Gt, ast.LtE: ast.GtE, ast.Gt: ast.Lt, ast.GtE: ast.LtE}
+        if type(op) not in flip:
+            return None
+        kind = type(op)
+        if not (isinstance(left, ast.Call) and u(left.func) == "abs"):
+            left, right, kind = right, left, flip[kind]
+        if not (isinstance(left, ast.Call) and u(left.func) == "abs" and len(left.args) == 1
+                and te.ev(left.args[0]) == Poly.atom(power)):
+            return None
+        if outcome != (kind in (ast.Lt, ast.LtE)):
+            return None
+        return _const_number(prog, fn, right), (u(atom) if outcome else f"not ({u(atom)})")
+    return None
+
+
 def check_l3(run: Run, prog: Program, ledgers: dict[str, Ledgers]) -> None:
     from ._c15_util import bound_args
 
@@ -741,15 +884,20 @@ def check_l3(run: Run, prog: Program, ledgers: dict[str, Ledgers]) -> None:
     paths = sym_paths(dnode)
     zero_paths = [p for p in paths if p.exit == "return" and _is_dr(p.ret)]
     ok = bool(zero_paths)
+    wide: list[tuple[Any, str, float | None]] = []
     for p in zero_paths:
         # ... and only on a path where the request was tested to be (close to) zero
-        ok = ok and any(
-            (isinstance(atom, ast.Call) and u(atom.func).split(".")[-1] == "is_close_to_zero" and len(atom.args) == 1
-             and te.ev(atom.args[0]) == Poly.atom(power) and o)
-            or (isinstance(atom, ast.Compare) and len(atom.ops) == 1 and isinstance(atom.ops[0], (ast.Eq, ast.NotEq))
-                and {repr(te.ev(atom.left)), repr(te.ev(atom.comparators[0]))} == {power, "0"}
-                and o == isinstance(atom.ops[0], ast.Eq))
-            for (_k, _ko, atom, _ln, o) in p.conds)
+        tests = [t for (_k, _ko, atom, _ln, o) in p.conds if (t := _zero_test(prog, dview, atom, o, power)) is not None]
+        ok = ok and bool(tests)
+        # ... to float tolerance: the answer "set-points 0, remainder 0" satisfies set-points + remainder ==
+        # request only for a request that IS zero; the tightest test on the path decides what gets it
+        if tests and all(t[0] is None for t in tests):
+            raise AnalysisError(f"{dp.qual}: the tolerance of the zero-request test `{tests[0][1]}` is not a "
+                                "compile-time constant: which requests get the zero answer cannot be decided")
+        if tests:
+            tol, text = min(((t[0], t[1]) for t in tests if t[0] is not None), key=lambda t: t[0])
+            if tol > FLOAT_TOL_W:
+                wide.append((p, text, tol))
         f = bound_args(p.ret, dr_fields, f"{dp.qual}: DistributionResult(...)")  # type: ignore[arg-type]
         cells = f.get("distribution")
         ok = ok and isinstance(cells, ast.DictComp) and te.ev(cells.value).is_zero() \
@@ -758,6 +906,17 @@ def check_l3(run: Run, prog: Program, ledgers: dict[str, Ledgers]) -> None:
     run.check(ok, "C01.L3", dp.qual, "zero request -> zero set-points, zero remainder",
               "a zero request does not yield zero set-points and zero remainder", node=dp.node,
               file=dp.file, instance=f"{dp.qual}: zero request -> zero set-points, zero remainder")
+    if zero_paths:
+        wp, wtext, wtol = wide[0] if wide else (None, "", None)
+        run.check(not wide, "C01.L3", dp.qual, f"zero answer only for a request that is zero to float tolerance: `{wtext}`",
+                  f"the zero-request answer (every set-point 0, remainder 0) is given whenever `{wtext}` holds, i.e. to "
+                  f"every request up to {wtol} W in magnitude -- beyond float tolerance ({FLOAT_TOL_W} W): such a request "
+                  "is non-zero, nothing is commanded and nothing is reported as undistributed, so set-points + remainder "
+                  "= 0 != request (and the manager reports the request as set).  Excluded alike: a wider tolerance "
+                  "argument or named constant, `abs(request) < eps`, a larger default in the close-to-zero helper; a "
+                  "request that is to be ignored must come back as remainder",
+                  node=dp.node, file=dp.file, path=wp.describe() if wp is not None else None,
+                  instance=f"{dp.qual}: the zero answer is given only to requests that are zero to float tolerance")
     ok_c = ok_s = True
     n_c = n_s = 0
     bad = None
@@ -774,7 +933,7 @@ def check_l3(run: Run, prog: Program, ledgers: dict[str, Ledgers]) -> None:
         facts = {f for (_k, _ko, atom, _ln, o) in p.conds if (f := _sign_fact(atom, o, power)) is not None}
         # the zero request was answered before: `is_close_to_zero(power)` is false on this path
         nonzero = any(isinstance(atom, ast.Call) and u(atom.func).split(".")[-1] == "is_close_to_zero"
-                      and len(atom.args) == 1 and te.ev(atom.args[0]) == Poly.atom(power) and not o
+                      and len(atom.args) >= 1 and te.ev(atom.args[0]) == Poly.atom(power) and not o
                       for (_k, _ko, atom, _ln, o) in p.conds)
         if callee == consume_name:
             n_c += 1
@@ -1297,6 +1456,95 @@ def check_b(run: Run, prog: Program) -> None:
               "the set-points commanded to the API are filtered or transformed relative to the "
               "computed distribution (reported != commanded)", node=sd.node, file=sd.file,
               instance=f"{sd.qual}: set_power(id, power) for every item of the distribution")
+    _check_wait_all(run, prog, anc.get("bm.send"), sd)
+
+
+WAIT_MODES = ("ALL_COMPLETED", "FIRST_COMPLETED", "FIRST_EXCEPTION")
+
+
+def _wait_mode(prog: Program, fn: FuncInfo, e: ast.AST | None, depth: int = 0) -> set[str]:
+    """The `return_when` modes an expression can denote ('?' for anything that is not one of asyncio's
+    three constants): default, `asyncio.X` / imported `X` / alias module, the constants' string values,
+    a module-level or class-level alias, either arm of a conditional expression."""
+    from ..engine.resolver import dotted
+
+    if e is None:
+        return {"ALL_COMPLETED"}
+    if isinstance(e, ast.Constant):
+        return {e.value} if e.value in WAIT_MODES else {"?"}
+    if isinstance(e, ast.IfExp):
+        return _wait_mode(prog, fn, e.body, depth + 1) | _wait_mode(prog, fn, e.orelse, depth + 1)
+    name = dotted(e)
+    if name is None or depth > 4:
+        return {"?"}
+    ext = prog.external_name(fn.module, name)
+    if ext.split(".")[-1] in WAIT_MODES and ext.split(".")[0] in ("asyncio", "concurrent"):
+        return {ext.split(".")[-1]}
+    head, _, tail = name.partition(".")
+    if not tail and head in fn.module.assigns:
+        return _wait_mode(prog, fn, fn.module.assigns[head], depth + 1)
+    if tail and "." not in tail:
+        cls = fn.cls if head in ("self", "cls") else fn.module.classes.get(head)
+        for k in (prog.mro(cls) if cls is not None else []):
+            if tail in k.class_assigns:
+                return _wait_mode(prog, FuncInfo(fn.name, k.module, fn.node, k), k.class_assigns[tail], depth + 1)
+    return {"?"}
+
+
+def _check_wait_all(run: Run, prog: Program, sd0: FuncInfo, sd: FuncInfo) -> None:
+    """Every set_power call gets the whole request timeout before it is written off.
+
+    What the sending routine leaves pending after its wait is cancelled and booked as failed power (C15 decides
+    the cancel / book pairing).  A set-point whose call is merely still in flight has been received by the
+    hardware; it may only be written off when the request timeout has run out.  So the wait over the tasks must
+    end only when all of them are done or the timeout expires: `return_when` is ALL_COMPLETED (asyncio's
+    default), never FIRST_EXCEPTION / FIRST_COMPLETED -- with these one early failure (or success) of one
+    inverter turns every other, accepted set-point into "failed" power and the reported set power is no longer
+    the power commanded.  The wait is looked for in the sending routine (helpers spliced in) and, failing that,
+    in the private methods it awaits."""
+    from ..engine.resolver import dotted
+
+    def waits_in(f: FuncInfo) -> list[tuple[FuncInfo, ast.Call]]:
+        return [(f, c) for c in walk_no_nested(f.node) if isinstance(c, ast.Call) and (d := dotted(c.func)) is not None
+                and prog.external_name(f.module, d) == "asyncio.wait"]
+
+    found = waits_in(sd)
+    if not found and sd0.cls is not None:
+        seen: set[str] = set()
+        for c in walk_no_nested(sd.node):
+            if isinstance(c, ast.Call) and isinstance(c.func, ast.Attribute) and u(c.func.value) in ("self", "cls"):
+                callee = prog.resolve_method(sd0.cls, c.func.attr)
+                if callee is not None and callee.qual not in seen:
+                    seen.add(callee.qual)
+                    found += waits_in(callee)
+    if not found:
+        raise AnalysisError(f"{sd0.qual}: no `asyncio.wait` over the set_power tasks found: how long a call may "
+                            "run before it is cancelled and booked as failed cannot be read")
+    for f, w in found:
+        rw = next((k.value for k in w.keywords if k.arg == "return_when"), None)
+        if any(k.arg is None for k in w.keywords):
+            raise AnalysisError(f"{f.qual}: asyncio.wait(**...) cannot be read")
+        modes = _wait_mode(prog, f, rw)
+        early = sorted(modes & {"FIRST_COMPLETED", "FIRST_EXCEPTION"})
+        if not early and "?" in modes:
+            raise AnalysisError(f"{f.qual}: `return_when={u(rw)}` of the wait over the set_power tasks is not one of "
+                                "asyncio's constants")
+        run.check(not early, "C01.B", f.qual, f"await {first_text(w)}",
+                  f"the wait over the set_power tasks returns early (return_when={'/'.join(early)}): as soon as one "
+                  "call has " + ("raised" if early == ["FIRST_EXCEPTION"] else "finished") + ", every call still in "
+                  "flight is left pending, cancelled and booked as failed power / failed batteries although the "
+                  "hardware has received (and may have applied) its set-point and the request timeout has not run "
+                  "out: the power reported as set is less than the power commanded.  Only ALL_COMPLETED (the "
+                  "default) lets a call be written off for the one admissible reason, the timeout; FIRST_COMPLETED, "
+                  "FIRST_EXCEPTION or an alias / conditional choice of them are excluded alike",
+                  node=w, file=f.file,
+                  instance=f"{f.qual}: the wait over the set_power tasks ends only when all are done or the "
+                           "request timeout expires")
+
+
+def first_text(n: ast.AST, limit: int = 110) -> str:
+    t = " ".join(u(n).split())
+    return t if len(t) <= limit else t[: limit - 3] + "..."
 
 
 MOD = "microgrid._power_distributing._distribution_algorithm._battery_distribution_algorithm"
@@ -1344,6 +1592,18 @@ CONTROLS = [
     ("mirror ledger bumped without a cell", MOD,
      "            distributed_power += excess\n", "            distributed_power += excess\n            distributed_power += 0.1\n",
      "C01.L1"),
+    ("zero answer widened to sub-watt requests", MOD,
+     "        if is_close_to_zero(power):\n            return DistributionResult(",
+     "        if is_close_to_zero(power, abs_tol=0.5):\n            return DistributionResult(", "C01.L3"),
+    ("zero answer for |request| below a threshold", MOD,
+     "        if is_close_to_zero(power):\n            return DistributionResult(",
+     "        if is_close_to_zero(power) or abs(power) < 0.01:\n            return DistributionResult(", "C01.L3"),
+    ("set_power wait ends at the first failed call",
+     "microgrid._power_distributing._component_managers._battery_manager",
+     "return_when=asyncio.ALL_COMPLETED", "return_when=asyncio.FIRST_EXCEPTION", "C01.B"),
+    ("set_power wait ends at the first finished call",
+     "microgrid._power_distributing._component_managers._battery_manager",
+     "            return_when=asyncio.ALL_COMPLETED,\n", "            return_when=\"FIRST_COMPLETED\",\n", "C01.B"),
 ]
 
 
@@ -1360,16 +1620,18 @@ def check(run: Run, prog: Program, tier: str) -> str:
              "ledger) as polynomial normal forms; no ledger changes alone")
     run.rule("C01.L2", "a complement ledger decremented in a loop is read after the loop (no dead residual)")
     run.rule("C01.L3", "the returned remainder is request - mirror, threaded through top-up and split; "
-             "early exits return zeros with the whole request / zero as remainder")
+             "early exits return zeros with the whole request / zero as remainder; the zero answer only "
+             "for requests that are zero to float tolerance")
     run.rule("C01.S", "supply path: request negated in, every cell and the remainder negated out; "
              "supply bounds are the dual of the consume bounds")
-    run.rule("C01.B", "reported distributed power == request - remainder; API map == distribution")
+    run.rule("C01.B", "reported distributed power == request - remainder; API map == distribution; the wait "
+             "over the set_power tasks is ALL_COMPLETED-or-timeout")
     run_rules(run, prog)
     run.floor("C01.L1", 6)
     run.floor("C01.L2", 2)
-    run.floor("C01.L3", 6)
+    run.floor("C01.L3", 7)
     run.floor("C01.S", 9)
-    run.floor("C01.B", 6)
+    run.floor("C01.B", 7)
     from ..engine.controls import run_controls
 
     run_controls(run, CONTROLS, run_rules, tier)
